@@ -109,11 +109,17 @@ impl TsRunContext {
 /// Wraps a JavaScript value with a guard to prevent garbage collection.
 pub struct TsRunValue {
     pub(crate) inner: RuntimeValue,
+    /// NUL-terminated copy of a string value handed out by tsrun_get_string; it lives as
+    /// long as the handle ("valid until value freed") and holds all tsrun_get_string_len bytes
+    pub(crate) c_string: core::cell::OnceCell<alloc::vec::Vec<u8>>,
 }
 
 impl TsRunValue {
     pub(crate) fn from_runtime_value(rv: RuntimeValue) -> Box<Self> {
-        Box::new(Self { inner: rv })
+        Box::new(Self {
+            inner: rv,
+            c_string: core::cell::OnceCell::new(),
+        })
     }
 
     pub(crate) fn from_js_value(interp: &mut Interpreter, value: JsValue) -> Box<Self> {
@@ -123,10 +129,12 @@ impl TsRunValue {
             guard.guard(obj.cheap_clone());
             Box::new(Self {
                 inner: RuntimeValue::with_guard(value, guard),
+                c_string: core::cell::OnceCell::new(),
             })
         } else {
             Box::new(Self {
                 inner: RuntimeValue::unguarded(value),
+                c_string: core::cell::OnceCell::new(),
             })
         }
     }
